@@ -44,6 +44,8 @@ FLOATS = [{'f': [3, 2]}, {'f': [1, 8]}, {'f': [-5, 4]}, {'f': [100, 1]}, {'f': [
           {'f': list((1e-7).as_integer_ratio())}, {'f': list((123456789.123456789).as_integer_ratio())}]
 
 
+ROOT_BRACE_KEYS = ['url_{n}', '{{literal}}', '{kname}_id', 'end }} key', '{{ open', 'k{n}{n}', '}}', 'a{{b}}c',
+                   '{kname}', 'caf\xe9 {{x}} {n}']
 NONFINITE = [{'fx': 'inf'}, {'fx': '-inf'}, {'fx': 'nan'}, {'fx': '-0.0'}]
 
 
@@ -220,9 +222,26 @@ def gen_wf(rng, fmt):
     if 'dir' not in avail:
         case['path'] = '/T/o.' + ext
     r = rng.random()
-    if r < 0.93:
+    if r < 0.90:
         case['payload'] = gen_payload(rng, avail, fmt)
-    # else: no payload -> the whole (formatted) context is written
+    else:
+        # no payload -> the whole (formatted) context is written: its ROOT keys are string
+        # nodes too, so give it root keys with expressions / brace escapes
+        if rng.random() < 0.8:
+            have = set(avail)
+            for _ in range(rng.randrange(1, 4)):
+                k = pick(rng, ROOT_BRACE_KEYS)
+                if k not in have and ('{n}' not in k or 'n' in have) and ('{kname}' not in k or 'kname' in have):
+                    have.add(k)
+                    ctx.insert(rng.randrange(len(ctx) + 1),
+                               [k, rng.choice([1, 'v', 'x {{y}}', True, {'l': [1, 'a }} b']},
+                                               {'d': [['in{{ner', 'z']]}])])
+        if fmt == 'toml':
+            # a TOML document has no null: keep the dumped context free of None
+            ctx[:] = [[k, v] for k, v in ctx if v is not None]
+            for kv in ctx:
+                if kv[0] == 'dct':
+                    kv[1] = {'d': [['in', 1], ['deep', {'l': ['{n}', 2]}]]}
     r = rng.random()
     if r < 0.45:
         case['key'] = 'out'
